@@ -176,7 +176,7 @@ func WriteIn(dir, name, content string) string {
 
 // TreesLayout lays out a text of Newick trees (one per line, as the checks write them) the way
 // files met in practice are: CRLF line ends, a tab or blanks after the ';', trees wrapped over
-// several lines, empty lines between trees, no final end-of-line, and - the reader works through
+// several lines, empty lines between trees, two trees on one line, no final end-of-line, and - the reader works through
 // a 4096-byte buffer - one tree whose text up to its ';' fills a whole number of buffers (blanks
 // after its first ',' bring it to that length), alone or followed by a blank. The layout is
 // chosen from the content (a case replays identically); half of the texts stay as they are.
@@ -195,7 +195,7 @@ func TreesLayout(content string) string {
 			return content
 		}
 	}
-	kind := h % 20
+	kind := h % 22
 	sel := int((h / 20) % uint32(len(lines)))
 	nl, after, between, final := "\n", "", "", true
 	pad := func(extra string) {
@@ -235,6 +235,22 @@ func TreesLayout(content string) string {
 	case 10:
 		pad("\t")
 		final = false
+	case 11, 12:
+		// two trees per line ("(a,b);(c,d);"), nothing or a blank between them
+		sep := ""
+		if kind == 12 {
+			sep = " "
+		}
+		var joined []string
+		for i := 0; i < len(lines); i++ {
+			if i+1 < len(lines) && strings.HasSuffix(lines[i], ";") && strings.HasSuffix(lines[i+1], ";") {
+				joined = append(joined, lines[i]+sep+lines[i+1])
+				i++
+			} else {
+				joined = append(joined, lines[i])
+			}
+		}
+		lines = joined
 	default:
 		return content
 	}
